@@ -16,7 +16,7 @@ Theorem C17_closed_object_rejects_unknown_key : forall n defs o kvs k v,
   find (fun p => seqb (fst p) k) (match jget "properties" o with Some (JObj p) => p | _ => [] end) = None ->
   In (SUnknownKey k) (validates (S n) defs (JObj o) (DMap kvs)).
 Proof.
-  intros n defs o kvs k v R A Hin F. cbn [validates jobj]. rewrite R. apply in_or_app. left.
+  intros n defs o kvs k v R A Hin F. cbn [validates jobj]. rewrite R. apply in_or_app. left. apply in_or_app. left.
   apply in_flat_map. exists (k, v). split; [exact Hin|]. cbn [fst snd]. rewrite F, A. left. reflexivity.
 Qed.
 Print Assumptions C17_closed_object_rejects_unknown_key.
@@ -24,6 +24,15 @@ Print Assumptions C17_closed_object_rejects_unknown_key.
 (* an enumerated scalar outside its enum is reported *)
 Theorem C17_enum_enforced : forall n defs o s e,
   jget "$ref" o = None -> jget "enum" o = Some e -> existsb (seqb s) (jstrs e) = false ->
-  validates (S n) defs (JObj o) (DScalar s) = [SEnum s].
-Proof. intros n defs o s e R E H. cbn [validates jobj]. rewrite R, E, H. reflexivity. Qed.
+  In (SEnum s) (validates (S n) defs (JObj o) (DScalar s)).
+Proof. intros n defs o s e R E H. cbn [validates jobj]. rewrite R, E, H. left. reflexivity. Qed.
+
+(* a negated sub-schema is reported exactly when the sub-schema itself has nothing to report *)
+Theorem C17_not_enforced : forall n defs o sub d,
+  jget "$ref" o = None -> jget "not" o = Some sub -> validates n defs sub d = [] ->
+  In SNot (validates (S n) defs (JObj o) d).
+Proof.
+  intros n defs o sub d R N H. cbn [validates jobj]. rewrite R, N, H. apply in_or_app. right. left. reflexivity.
+Qed.
+Print Assumptions C17_not_enforced.
 Print Assumptions C17_enum_enforced.
